@@ -2,10 +2,13 @@ From Coq Require Import ExtrOcamlBasic.
 From W.model Require Import Crash.
 From W.gen Require Import Extracted.
 Extraction Language OCaml.
-(* the write order of the model follows the skeletons regenerated from the Go source; they are
-   turned into number codes here, inside Coq, so that no Coq string reaches the OCaml code *)
+(* the write order of the model follows the skeletons regenerated from the Go source (all
+   thirteen, incl. cmd/wrgl commit / commitWithTable / commitMergeResult / createMergeCommit);
+   they are turned into number codes here, inside Coq, so that no Coq string reaches the OCaml
+   code *)
 Definition sk_ex : skels := Eval vm_compute in
-  tie_skels skel_ingest skel_insert_block skel_recv_table skel_index_table skel_recv_commit
-            skel_fetch skel_prune skel_prune_tables prune_commit_order.
+  mk_skels skel_ingest skel_insert_block skel_recv_table skel_index_table skel_recv_commit
+           skel_fetch skel_prune skel_prune_tables prune_commit_order
+           skel_cmd_commit skel_cmd_commit_with_table skel_cmd_merge_result skel_cmd_create_merge.
 Definition run := run_C13_sk sk_ex.
 Extraction "ex_C13.ml" run.
